@@ -1,6 +1,7 @@
 (* C20 -- The auto-reloader never loses a reload request.
    Only statements here; proofs live in MJ.C20.Proofs.  The model (C20/Model.v) is the transition
-   system of minijinja-autoreload at the granularity of its lock acquisitions, for arbitrarily many
+   system of minijinja-autoreload at the granularity of its lock acquisitions and of the user callbacks
+   (which run with the notifier mutex held: states "lock held, inside callback"), for arbitrarily many
    threads and operations; [restore c = true] is the code after the fix (the flag is set again when
    the creator fails).  Events carry what acquire_env returned; [born e] is the number of requests
    that had taken effect when environment e was created (or, with fast reload, when its template
@@ -23,14 +24,18 @@ Proof. intros; split; [apply replay_run | apply run_replay]. Qed.
    Inductive over every step of every thread. *)
 Theorem inv_initial : Inv init.
 Proof. exact inv_init. Qed.
+Theorem inv2_initial : Inv2 init.
+Proof. exact inv2_init. Qed.
 
+(* Inv2: while a thread is inside the freshness callback (or the on-should-reload callback called from
+   should_reload) the notifier mutex is held, so the flag it saw clear is still clear. *)
 Theorem inv_inductive : forall c s e s',
-  restore c = true -> Inv s -> step c s e s' -> Inv s'.
-Proof. exact inv_step. Qed.
+  restore c = true -> Inv s -> Inv2 s -> step c s e s' -> Inv s' /\ Inv2 s'.
+Proof. intros c s e s' Hfix H1 H2 Hs. exact (invs_step c s e s' Hfix (conj H1 H2) Hs). Qed.
 
 Theorem inv_reachable : forall c tr s,
-  restore c = true -> run c init tr s -> Inv s.
-Proof. intros c tr s Hfix H. exact (inv_run c Hfix tr init s inv_init H). Qed.
+  restore c = true -> run c init tr s -> Inv s /\ Inv2 s.
+Proof. intros c tr s Hfix H. exact (invs_run c Hfix tr init s invs_init H). Qed.
 
 (* no_lost_request.  Take any run, any acquire_env (its first step is LAcqCache t, after the prefix
    tr1) and the step e in which an acquire_env next returns an environment en (no other acquire_env
@@ -41,7 +46,7 @@ Proof. intros c tr s Hfix H. exact (inv_run c Hfix tr init s inv_init H). Qed.
    running (see request_during_creator below), creators may fail any number of times before. *)
 Theorem no_lost_request : forall c tr1 t tr2 e en s,
   restore c = true ->
-  run c init (tr1 ++ {| lab := LAcqCache t; obs := RNone |} :: tr2 ++ [e]) s ->
+  run c init (tr1 ++ ev (LAcqCache t) RNone :: tr2 ++ [e]) s ->
   forallb (fun x => negb (is_cache (lab x))) (tr2 ++ [e]) = true ->
   is_drop (lab e) = false -> obs e = REnv en ->
   tid_of (lab e) = t /\ count_sets tr1 <= born en.
@@ -49,7 +54,7 @@ Proof. exact no_lost_request_proof. Qed.
 
 (* the same at state level: a guard handed out for an acquire that locked when r0 requests had taken effect *)
 Theorem handed_out_is_fresh : forall c s e s' t r0,
-  restore c = true -> Inv s -> step c s e s' -> ph s' = Holding t r0 ->
+  restore c = true -> Inv s /\ Inv2 s -> step c s e s' -> ph s' = Holding t r0 ->
   exists en, cached s' = Some en /\ r0 <= born en.
 Proof. exact handed_out_fresh. Qed.
 
@@ -79,9 +84,34 @@ Theorem decision_is_justified : forall c s e s' t r0 w,
   match w with
   | WhyEmpty => cached s = None
   | WhyFlag => flag s = true
-  | WhyFresh => lab e = LAcqCheck t (Some true)
+  | WhyFresh => lab e = LFreshEnd t true \/ (lab e = LOnCbEnd t /\ nlk s = NOnCb t true)
   end.
 Proof. exact decided_justified_proof. Qed.
+
+(* ... and the on-should-reload callback is entered from should_reload only when the freshness callback said "stale" *)
+Theorem oncb_from_check_justified : forall c s e s' t,
+  step c s e s' -> nlk s' = NOnCb t true -> nlk s <> NOnCb t true -> lab e = LFreshEnd t true.
+Proof. exact oncb_from_check_justified_proof. Qed.
+
+(* The notifier mutex.  The user callbacks run with it held and may take arbitrarily long: while a
+   thread h is inside one, no step of any thread changes the flag, the request count or the mutex
+   state, except h leaving its callback; a request_reload that is not blocked takes effect (it never
+   returns without having set the flag); a blocked attempt changes nothing and only happens while
+   another thread holds the mutex. *)
+Theorem notifier_excludes : forall c s e s' h,
+  step c s e s' -> nlk_holder (nlk s) = Some h ->
+  (flag s' = flag s /\ reqs s' = reqs s /\ nlk s' = nlk s) \/
+  (flag s' = flag s /\ reqs s' = reqs s /\ tid_of (lab e) = h /\
+   (lab e = LOnCbEnd h \/ exists a, lab e = LFreshEnd h a)).
+Proof. exact notifier_excludes_proof. Qed.
+
+Theorem request_takes_effect : forall c s e s' t,
+  step c s e s' -> lab e = LReqSet t -> nlk s = NFree /\ flag s' = true /\ reqs s' = reqs s + 1.
+Proof. exact request_takes_effect_proof. Qed.
+
+Theorem blocked_is_stutter : forall c s e s' t,
+  step c s e s' -> lab e = LBlocked t -> s' = s /\ exists h, nlk_holder (nlk s) = Some h /\ h <> t.
+Proof. exact blocked_is_stutter_proof. Qed.
 
 (* The three guarantees as the executable trace checkers of Spec.v (these are what the check
    evaluates on the implementation's observed traces): every run of the model passes them. *)
@@ -101,6 +131,21 @@ Example retry_after_failure :
   exists s, run cfg_fixed init retry_trace s /\ cached s = Some {| gen := 3; born := 1 |}.
 Proof. exact retry_after_failure_proof. Qed.
 
+(* a request issued while another thread polls a slow freshness callback sleeps on the notifier mutex,
+   takes effect when the callback has returned, and the next acquire rebuilds (hypotheses of
+   no_lost_request met with a BLOCKED step in the prefix) *)
+Example request_during_freshness_poll :
+  exists s, run cfg_fresh init (poll_tr1 ++ ev (LAcqCache 2) RNone :: poll_tr2 ++ [poll_last]) s /\
+            count_sets poll_tr1 = 1 /\ obs poll_last = mk_env 2 1.
+Proof. exact request_during_freshness_poll_proof. Qed.
+
+(* the same schedule with a request_reload that returns instead of waiting for the mutex (try_lock) is
+   not a run of the model - the replay stops at event 7 - and violates no_lost_request *)
+Example nonblocking_request_rejected :
+  replay cfg_fresh init 0 skip_trace = inr (7, RNone) /\ no_lost_ok skip_trace = false /\
+  (forall s, ~ run cfg_fresh init skip_trace s).
+Proof. exact nonblocking_request_rejected_proof. Qed.
+
 (* the hypotheses of no_lost_request are met by the 3-thread trace "request lands during the creator":
    the acquire of thread 2 starts after the request returned and is handed generation 2, born = 1 *)
 Example request_during_creator :
@@ -115,6 +160,7 @@ Qed.
 Print Assumptions exec_is_step.
 Print Assumptions replay_is_run.
 Print Assumptions inv_initial.
+Print Assumptions inv2_initial.
 Print Assumptions inv_inductive.
 Print Assumptions inv_reachable.
 Print Assumptions no_lost_request.
@@ -123,5 +169,9 @@ Print Assumptions guard_excludes.
 Print Assumptions no_spurious_rebuild.
 Print Assumptions reload_only_after_decision.
 Print Assumptions decision_is_justified.
+Print Assumptions oncb_from_check_justified.
+Print Assumptions notifier_excludes.
+Print Assumptions request_takes_effect.
+Print Assumptions blocked_is_stutter.
 Print Assumptions spec_holds_on_every_run.
 Print Assumptions lost_request_refuted_before_fix.
